@@ -19,6 +19,7 @@ import PyIkev2.Proofs.HandlersCollide
 import PyIkev2.Proofs.TwoEnds
 import PyIkev2.Proofs.TwoEndsCreate
 import PyIkev2.Proofs.TwoEndsRekey
+import PyIkev2.Proofs.TwoEndsInit
 
 namespace PyIkev2.Props.C09
 open PyIkev2 PyIkev2.Impl
@@ -389,7 +390,7 @@ theorem c09_concrete_child_exchanges_around_an_ike_rekey (now fuel : Nat) (ops1 
   · rw [hna] at e1; rw [hnb] at e2; cases e1; cases e2
     exact Agree.opRun now fuel ops2 na nb a3 b3 hag h3
   · rw [hag.sta] at hdel; cases hdel
-  · rw [hk2] at hk; exact absurd hk.symm hkids
+  · rw [hk2] at hk; exact absurd hk.1.symm hkids
 
 /-- non-vacuity: after the ACQUIRE of the example above, `a` rekeys the IKE_SA: both replaced objects are DELETED without CHILD_SAs, the
     promoted successors are ESTABLISHED, each has the other's SPI as its peer SPI, and the CHILD_SA went with them -/
@@ -412,5 +413,81 @@ example : exOld exRekeyed = some [21, 21, 0, 0] := by decide +kernel
 example : exNewSpis exRekeyed =
     some [[[5,5,5,5,5,5,5,5], [6,6,6,6,6,6,6,6]], [[6,6,6,6,6,6,6,6], [5,5,5,5,5,5,5,5]]] := by decide +kernel
 example : exNewKids exRekeyed = some [[([7,7,7,7], [8,8,8,8], 3)], [([7,7,7,7], [8,8,8,8], 3)]] := by decide +kernel
+
+/-- **a whole session**: any sequence of CHILD_SA creations, rekeys and deletions and of IKE_SA rekeys, started by either end, one
+    conversation at a time (`sessRun`: after an IKE_SA rekey that went through, the session goes on between the two successors;
+    after a refused one between the ends as they are; it is over when an initiator gave up): if it runs to the end, the ends agree at
+    the end as they did at the start -/
+theorem c09_concrete_any_session_keeps_the_ends_agreed (now fuel : Nat) (ops : List SessOp) (a b a' b' : HSt)
+    (h : Agree a b) (hx : sessRun now fuel (a, b) ops = some (a', b')) : Agree a' b' :=
+  Agree.sessRun now fuel ops a b a' b' h hx
+
+/-- non-vacuity: ACQUIRE at `a`, IKE_SA rekey by `a`, then `b` deletes the CHILD_SA — on the successors, which have each other's SPIs -/
+def exSess : Option (HSt × HSt) :=
+  sessRun 100 6 (exA1, exB1) [.child (.create true exC0), .rekeyIke true, .child (.delete false 0)]
+example : exKids (sessRun 100 6 (exA1, exB1) [.child (.create true exC0), .rekeyIke true]) =
+    some ([([7,7,7,7], [8,8,8,8], 3)], [([8,8,8,8], [7,7,7,7], 3)]) := by decide +kernel
+example : exKids exSess = some ([], []) := by decide +kernel
+example : exSess.map (fun x => [x.1.me.core.mySpi, x.1.me.core.peerSpi, x.2.me.core.mySpi, x.2.me.core.peerSpi]) =
+    some [[5,5,5,5,5,5,5,5], [6,6,6,6,6,6,6,6], [6,6,6,6,6,6,6,6], [5,5,5,5,5,5,5,5]] := by decide +kernel
+example : exStates exSess = some ([10, 10], [false, false]) := by decide +kernel
+
+/-! ### two ends: from nothing to agreement
+
+IKE_SA_INIT and IKE_AUTH between an initiator object and the responder object the controller creates for its request.  (A COOKIE or
+INVALID_KE_PAYLOAD round makes the controller create another responder object; that is the shell's business — C18, C16 — and ends
+this conversation.) -/
+
+/-- the responder's IKE_AUTH handler: ESTABLISHED afterwards, with exactly one more CHILD_SA that the reply describes — or with none and
+    one notification in the reply -/
+theorem c09_concrete_ike_auth_responder (request : Msg) (x : XSa) :
+    Tri (MeIs x) (processIkeAuthRequest request)
+      (fun res s => ∃ payloads z method data,
+        res = .reply (mkResponse z.core 35 (payloads ++ authTail (mkP ptIDr (.ident z.ext.conf.myIdType z.ext.conf.myIdData)) method data)) ∧
+        s.me = setSt z stESTABLISHED ∧ AuthGranted request x z payloads)
+      (fun _ _ => True) :=
+  processIkeAuthRequest_tri request x
+
+/-- the initiator's IKE_AUTH handler: when it returns it is ESTABLISHED, with the CHILD_SA the reply describes or — the reply said no —
+    without one; a CHILD_SA it cannot accept makes it raise (the IKE_SA ends) -/
+theorem c09_concrete_ike_auth_initiator (response : Msg) (y : XSa) (c0 : Child) (hc : y.ext.creating = some c0)
+    (hst : y.core.st = stAUTH_REQ_SENT) :
+    Tri (MeIs y) (processIkeAuthResponse response)
+      (fun res s => res = .nothing ∧
+        ((s.me = setSt y stESTABLISHED ∧ HasErr response = true) ∨
+         (HasErr response = false ∧ ∃ z, CreatedX y c0 response z ∧ s.me = setSt z stESTABLISHED)))
+      (fun _ _ => True) :=
+  processIkeAuthResponse_tri response y c0 hc hst
+
+/-- **from nothing to agreement**: two objects without CHILD_SAs, the responder as the controller creates it (no cookie secret, the
+    initiator's SPI as its peer SPI): if no handler raises, they are ESTABLISHED, agree — on the first CHILD_SA, or on none when the
+    responder refused it — and have each other's SPI as peer SPI -/
+theorem c09_concrete_initial_exchanges_end_in_agreement (now fuel : Nat) (c : Child) (a b a' b' : HSt)
+    (hak : a.me.ext.kids = []) (hbk : b.me.ext.kids = []) (hcookie : b.me.core.cookie = false) (hbi : b.me.core.isInit = false)
+    (hbp : b.me.core.peerSpi = a.me.core.mySpi) (hp23 : c.proposal.proto = 2 ∨ c.proposal.proto = 3)
+    (hx : initExchange now (fuel + 2) c a b = some (a', b')) :
+    Agree a' b' ∧ a'.me.core.peerSpi = b'.me.core.mySpi ∧ b'.me.core.peerSpi = a'.me.core.mySpi :=
+  initExchange_agree now fuel c a b a' b' hak hbk hcookie hbi hbp hp23 hx
+
+/-- **a whole life**: the initial exchanges, then any session (CHILD_SA creations, rekeys, deletions, IKE_SA rekeys, by either end, one
+    conversation at a time): the ends — the last successors — agree at the end -/
+theorem c09_concrete_whole_life_keeps_the_ends_agreed (now fuel : Nat) (c : Child) (ops : List SessOp) (a b a1 b1 a' b' : HSt)
+    (hak : a.me.ext.kids = []) (hbk : b.me.ext.kids = []) (hcookie : b.me.core.cookie = false) (hbi : b.me.core.isInit = false)
+    (hbp : b.me.core.peerSpi = a.me.core.mySpi) (hp23 : c.proposal.proto = 2 ∨ c.proposal.proto = 3)
+    (h1 : initExchange now (fuel + 2) c a b = some (a1, b1)) (h2 : sessRun now fuel (a1, b1) ops = some (a', b')) : Agree a' b' :=
+  Agree.sessRun now fuel ops a1 b1 a' b' (initExchange_agree now fuel c a b a1 b1 hak hbk hcookie hbi hbp hp23 h1).1 h2
+
+/-- non-vacuity: two objects in INITIAL; after the initial exchanges both are ESTABLISHED, the first CHILD_SA is mirrored, the tapes
+    (nonces, public values, AUTH payloads and verdicts, the responder's SPI, kernel verdicts) are used up exactly -/
+def exConfA2 : Conf := { exConfA with proposal := exIkeP }
+def exConfB2 : Conf := { exConfB with proposal := exIkeP, myIdType := 2, myIdData := [98], peerIdType := 2, peerIdData := [97] }
+def exAI : HSt :=
+  { me := { core := { exCoreA with st := stINITIAL, children := [], peerSpi := [] }, ext := { conf := exConfA2, kids := [] } }, succ := none, tape := { vals := [.bytes [21], .bytes [22], .flag true, .auth 2 [33], .verdict true, .num 0] } }
+def exBI : HSt :=
+  { me := { core := { exCoreA with st := stINITIAL, isInit := false, mySpi := [2,2,2,2,2,2,2,2], peerSpi := [1,1,1,1,1,1,1,1], myId := 0, peerId := 0, children := [], myAddr := [192,168,0,2], peerAddr := [192,168,0,1] }, ext := { conf := exConfB2, kids := [] } }, succ := none, tape := { vals := [.bytes [23], .bytes [24], .flag true, .verdict true, .bytes [8,8,8,8], .num 0, .auth 2 [34]] } }
+example : exKids (initExchange 0 4 exC0 exAI exBI) = some ([([7,7,7,7], [8,8,8,8], 3)], [([8,8,8,8], [7,7,7,7], 3)]) := by decide +kernel
+example : exStates (initExchange 0 4 exC0 exAI exBI) = some ([10, 10], [false, false]) := by decide +kernel
+example : (initExchange 0 4 exC0 exAI exBI).map (fun x => [x.1.me.core.peerSpi, x.2.me.core.peerSpi, [x.1.tape.vals.length, x.2.tape.vals.length]]) =
+    some [[2,2,2,2,2,2,2,2], [1,1,1,1,1,1,1,1], [0, 0]] := by decide +kernel
 
 end PyIkev2.Props.C09
